@@ -7,6 +7,7 @@ if [ ! -d .vendor/mpmath ]; then
   mkdir -p .vendor
   python3 -c "import zipfile,glob; zipfile.ZipFile(glob.glob('/opt/veriftools/wheels/mpmath-*.whl')[0]).extractall('.vendor')"
 fi
+python3 tools/gen_roots.py
 python3 tools/translate_table.py "$REPO" lean/OpdaGen
 if [ -f tools/make_cert.py ]; then python3 tools/make_cert.py "$REPO" lean/OpdaGen; fi
 cd lean
